@@ -325,8 +325,10 @@ ComputeLogw    == Getters /\ Consistent(s) /\ Step(s, Lbl("compute_logw_and_logz
 
 SetCurrent     == \E k \in AK : \E t \in Tags : \E cp \in BOOLEAN :
                     Step(SetNew(s, k, t, cp), Lbl("set_current", k, t, 0, cp))
+\* (arrays have key-specific shapes: the caller passes back an array it holds for the same key)
 SetCurrentHeld == \E k \in AK : \E c \in s.ext : \E cp \in BOOLEAN :
-                    Step(SetHeld(s, k, c, cp), LblAt("set_current_held", k, cp, Where(s, c)))
+                    /\ Where(s, c).k2 = k
+                    /\ Step(SetHeld(s, k, c, cp), LblAt("set_current_held", k, cp, Where(s, c)))
 SetCurrentBeta == \E b \in 1..2 : Step(SetBeta(s, b), Lbl("set_current", "beta", b, 0, TRUE))
 UpdateCurrent  == \E t \in Tags : \E cp \in BOOLEAN :
                     Step(UpdNew(s, t, 1, cp), Lbl("update_current", "", t, 0, cp))
